@@ -74,7 +74,7 @@ def angles_for_table(e, kinds):
 
 def run(summ, seed, per_def):
     rng = random.Random(seed)
-    names = sorted(set(d.rsplit('_', 1)[0] for d in summ.get('defs', {})))
+    names = sorted(set(d.rsplit('_', 1)[0] for d in summ.get('defs', {}) if d.startswith(('odo_', 'lmk_'))))
     rows = []
     hist = {}
     for name in names:
